@@ -112,3 +112,65 @@ Proof.
   destruct cs as [|c r]; [reflexivity|]. cbn [map app]. f_equal.
   induction r as [|x r IH]; cbn; [reflexivity|]. f_equal. exact IH.
 Qed.
+
+(* ---- slices, searches on single characters ---- *)
+Lemma slice_from {A} (l : list A) i : 0 <= i -> slice l (Some i) None = skipn (Z.to_nat i) l.
+Proof.
+  intros Hi. unfold slice, norm_idx. replace (i <? 0) with false by lia.
+  destruct (Z.min_spec i (Z.of_nat (List.length l))) as [[H E]|[H E]]; rewrite E.
+  - rewrite firstn_all2; [reflexivity|]. rewrite skipn_length. lia.
+  - rewrite firstn_all2 by (rewrite skipn_length; lia).
+    rewrite Nat2Z.id. rewrite skipn_all. rewrite skipn_all2 by lia. reflexivity.
+Qed.
+Lemma slice_to {A} (l : list A) i : 0 <= i -> slice l None (Some i) = firstn (Z.to_nat i) l.
+Proof.
+  intros Hi. unfold slice, norm_idx. replace (i <? 0) with false by lia.
+  change (Z.to_nat 0) with 0%nat. cbn [skipn]. rewrite Z.sub_0_r.
+  destruct (Z.min_spec i (Z.of_nat (List.length l))) as [[H E]|[H E]]; rewrite E; [reflexivity|].
+  rewrite Nat2Z.id, firstn_all. rewrite firstn_all2 by lia. reflexivity.
+Qed.
+Lemma slice_to_neg {A} (l : list A) k : 0 < k -> slice l None (Some (- k)) = drop_last (Z.to_nat k) l.
+Proof.
+  intros Hk. unfold slice, norm_idx, drop_last. replace (- k <? 0) with true by lia.
+  change (Z.to_nat 0) with 0%nat. cbn [skipn]. rewrite Z.sub_0_r. f_equal. lia.
+Qed.
+Lemma slice_from_neg {A} (l : list A) k : 0 < k -> slice l (Some (- k)) None = take_last (Z.to_nat k) l.
+Proof.
+  intros Hk. unfold slice, norm_idx, take_last. replace (- k <? 0) with true by lia.
+  rewrite firstn_all2 by (rewrite skipn_length; lia). f_equal. lia.
+Qed.
+
+Lemma prefixb_single c l : prefixb [c] l = match l with x :: _ => c =? x | [] => false end.
+Proof. destruct l as [|x r]; cbn; [reflexivity|]. rewrite andb_true_r. reflexivity. Qed.
+
+Lemma find_from_single c l i :
+  find_from [c] l i = match index_of c l with Some j => i + j | None => -1 end.
+Proof.
+  revert i; induction l as [|x r IH]; intros i.
+  - reflexivity.
+  - change (find_from [c] (x :: r) i) with (if prefixb [c] (x :: r) then i else find_from [c] r (i + 1)).
+    rewrite prefixb_single. cbn [index_of]. rewrite Z.eqb_sym. destruct (x =? c) eqn:E; [lia|]. rewrite IH.
+    destruct (index_of c r); cbn [option_map]; lia.
+Qed.
+Lemma find_from_single_memb c l : (0 <=? find_from [c] l 0) = memb c l.
+Proof.
+  rewrite find_from_single. destruct (index_of c l) as [j|] eqn:E.
+  - assert (0 <= j) by (clear -E; revert j E; induction l as [|x r IH]; intros j E; cbn in E; [discriminate|];
+      destruct (x =? c); [inversion E; lia|]; destruct (index_of c r) as [k|]; cbn in E; [inversion E; specialize (IH k eq_refl); lia|discriminate]).
+    symmetry. replace (0 <=? 0 + j) with true by lia. apply memb_spec.
+    assert (index_of c l <> None) as H1 by congruence. destruct (in_dec Z.eq_dec c l) as [Hin|Hn]; [exact Hin|].
+    apply index_of_none in Hn. congruence.
+  - symmetry. replace (0 <=? -1) with false by lia. apply index_of_none in E.
+    destruct (memb c l) eqn:M; [apply memb_spec in M; contradiction|reflexivity].
+Qed.
+Lemma rfind_from_single c l i b : rfind_from [c] l i b = 
+  (fix rf (s : list Z) (i best : Z) := match s with [] => best | x :: r => rf r (i + 1) (if x =? c then i else best) end) l i b.
+Proof.
+  revert i b; induction l as [|x r IH]; intros i b.
+  - reflexivity.
+  - change (rfind_from [c] (x :: r) i b) with (rfind_from [c] r (i + 1) (if prefixb [c] (x :: r) then i else b)).
+    rewrite prefixb_single, IH, (Z.eqb_sym c x). reflexivity.
+Qed.
+
+#[global] Arguments memb : simpl never.
+#[global] Arguments index_of : simpl never.
